@@ -18,7 +18,7 @@ STUBS = [
     "np.vdot, np.linalg.norm, np.real/imag/angle, np.isscalar, np.issubdtype(object, complexfloating) -> definitions on SymK",
     "thresh._soft_thresh/_hard_thresh (nb.vectorize) -> np.frompyfunc of the DUFunc's own py_func",
     "range inside sigpy.interp accepts integral floats (numba semantics); NUMBA_DISABLE_JIT=1 runs @nb.jit kernels as Python",
-    "np.angle(z) on symbolic z -> fresh theta with cos(theta)|z| = Re z, sin(theta)|z| = Im z; np.isinf/np.isnan of symbolic values -> False",
+    "np.angle(z) on symbolic z -> fresh theta with cos(theta)|z| = Re z, sin(theta)|z| = Im z; np.isinf/np.isnan of symbolic values -> False; np.finfo(object) -> finfo(float64)",
     "sigpy.util.randn(dtype=object) -> float64 start vector (MaxEig on symbolic problems)",
     "reals for floats: float constants taken at their exact rational value; rounding outside the claim",
 ]
@@ -264,6 +264,22 @@ def install():
             return _orig[name](x, *a, **k)
         return f
     np.isinf, np.isnan = _finite_pred("isinf"), _finite_pred("isnan")
+
+    _orig["finfo"] = np.finfo
+
+    class _FinfoProxy:
+        """np.finfo(object dtype) -> finfo(float64): symbolic arrays stand for double precision data"""
+        def __call__(self, dtype):
+            try:
+                if dtype == object or (isinstance(dtype, np.dtype) and dtype == np.dtype(object)):
+                    dtype = np.float64
+            except Exception:
+                pass
+            return _orig["finfo"](dtype)
+
+        def __getattr__(self, k):
+            return getattr(_orig["finfo"], k)
+    np.finfo = _FinfoProxy()
 
     def isscalar(x):
         return isinstance(x, SymK) or _orig["isscalar"](x)
